@@ -43,13 +43,43 @@ def run(tier):
         if ch:
             sp = os.path.join(wd, f"scen_{i}.ndjson")
             vlib.write_ndjson(sp, ch)
-            jobs.append(["c13", sp, os.path.join(wd, f"trace_{i}.ndjson")])
+            jobs.append(["c13", sp, os.path.join(wd, f"trace_{i}.ndjson")] + ([("gt" if tier == "quick" else "deep")] if i == 0 else []))
     vlib.run_vh_parallel(jobs, timeout=7200)
     rows = []
     for j in jobs:
         rows += [r for r in vlib.read_ndjson(j[2]) if r["ev"] != "header" or not rows]
     pairs = [r for r in rows if r["ev"] == "Pair"]
+    gtf = [r for r in rows if r["ev"] == "GtF"]
+    ml = [r for r in rows if r["ev"] == "PairML"]
+    rows = [r for r in rows if r["ev"] not in ("GtF", "PairML")]
+    # combining Miller-loop results is a recorded open finding for the BN254 engine (known_findings.json): every such event
+    # fails the same way, so three of them are validated (and reported as the known finding) and the rest only counted
+    kf = json.load(open(os.path.join(vlib.ROOT, "known_findings.json")))["findings"]
+    bn_ml_known = any(f["property"] == "C13" and f["status"] == "open" and f.get("key", {}).get("entry") == "ml_add" for f in kf)
+    ml_bn = [r for r in ml if r["engine"] == "bn256" and len(r["terms"]) != 1]
+    ml_checked = [r for r in ml if not (bn_ml_known and r["engine"] == "bn256" and len(r["terms"]) != 1)] + (ml_bn[:3] if bn_ml_known else [])
     good, rejected, st = vlib.validate_runs(rows, "Pairing_Trace.tla", "Pairing_Trace.cfg", "C13", "pr", max_rejects=12, start_ev="Pair")
+    hd = [r for r in rows if r["ev"] == "header"][:1]
+    mgood, mrej, _ = vlib.validate_many([hd + ml_checked[i::8] for i in range(8) if ml_checked[i::8]], "Pairing_Trace.tla", "Pairing_Trace.cfg",
+                                        "C13", "ml", max_rejects=8, start_ev="PairML")
+    for run_rows, line, e in mrej:
+        entry = next((k for k in ("ml_add", "ml_add_ref", "ml_assign", "ml_assign_ref") if e[k] != e["expect"]), "expect")
+        rep.violation({"engine": e["engine"], "entry": entry, "len": min(len(e["terms"]), 4)},
+                      f"{e['engine']} terms={e['terms']} expect={e['expect']}: Miller-loop results combined with + {e['ml_add']} +& {e['ml_add_ref']} "
+                      f"+= {e['ml_assign']} +=& {e['ml_assign_ref']} (999999 = not a power of e(G1, G2) within the window)",
+                      {"scenario": {"terms": e["terms"], "expect": e["expect"]}, "event": e})
+    # the target group as a subgroup of Fp12: every Gt value with its twelve coefficients, judged by Tower.tla
+    head = [r for r in rows if r["ev"] == "header"][:1]
+    fe = [r for r in gtf if r["op"] == "final_exp"]
+    rest = [r for r in gtf if r["op"] != "final_exp"]
+    sets = [head + rest[i::12] for i in range(12) if rest[i::12]] + [head + [f] for f in fe]
+    ggood, grej, gst = vlib.validate_many(sets, "Pairing_Trace.tla", "Pairing_Trace.cfg", "C13", "gtf", max_rejects=6, start_ev="GtF")
+    for run_rows, line, e in grej:
+        rep.violation({"engine": e["engine"], "what": "gt_as_fp12", "op": e["op"]},
+                      f"{e['engine']} target-group value differs from the Fp12 arithmetic of Tower.tla: op={e['op']} x={json.dumps(e['x'])[:120]}",
+                      {"scenario": {"terms": [[1, 1]], "expect": 1}, "event": {k: e[k] for k in ("engine", "op", "x")}})
+    if not gtf:
+        raise vlib.ToolError("vacuity: no target-group value recorded")
     # Gt lines sit between runs: validate_runs treats everything after the first Pair as part of runs, so check them apart
     for run_rows, line, e in rejected:
         if e["ev"] == "Gt":
@@ -68,15 +98,17 @@ def run(tier):
         "traces_validated_against_impl": len(good),
         "lists_enumerated": len(allsc), "lists_replayed": len(pick), "events": len(pairs),
         "max_list_length": max(len(s["terms"]) for s in pick),
-        "evaluations": len(pairs) * 5,
+        "evaluations": len(pairs) * 9 + len(gtf), "target_group_values_judged_as_fp12": len(ggood), "final_exponentiations": len(fe),
+        "miller_loop_combinations_judged": len(mgood), "miller_loop_combinations_skipped_as_known_finding": len(ml) - len(ml_checked),
         "distinct_nontrivial": len(set((e["engine"], len(e["terms"]), e["expect"]) for e in pairs)),
         "rule": "Pairing_Trace!PairOK: log of every entry point's result = sum a_i.b_i; single pairing is the identity iff an argument is",
         "samples": [pairs[0]],
         "mutant_detected_in_model": True,
         "exhaustive": tier == "thorough",
     })
-    rep.assumptions += ["logarithms are found by search over the library's own Gt group operations (window 80); Miller-loop and "
-                        "final-exponentiation numerics are not re-derived", "scalars limited to {0, 1, r-1, 2}; Gt encoding not covered"]
+    rep.assumptions += ["logarithms are found by search over the library's own Gt group operations (window 80); those operations, the pairing values "
+                        "and the final exponentiation (f^(c (p^12 - 1)/r), c = 3 for BLS12-381 / blst and 1 for BN254) are judged as Fp12 "
+                        "arithmetic on their coefficients; the Miller loop itself is not re-derived", "Gt has no byte encoding in the library"]
     return rep.finish()
 
 
